@@ -58,6 +58,9 @@ def jobs(tier, seed):
     out = [("bw",), ("cmmom",), ("gs",)]
     for L in Ls:
         out += [("poly", L), ("bprime", L), ("gamma", L), ("bwr", L), ("bwr2", L), ("dom", L), ("barrier", L)]
+    from . import C15pm
+
+    out += [j + (tier,) for j in C15pm.jobs(tier)]
     return out
 
 
@@ -469,6 +472,14 @@ def job_gs(ss):
 
 def run_job(job):
     ss = Session(job)
+    if job[0] in ("pm", "pmdom", "calmom", "pmq", "pmls"):
+        from . import C15pm
+
+        if job[0] in ("calmom", "pmq"):
+            {"calmom": C15pm.job_calmom, "pmq": C15pm.job_pmq}[job[0]](ss, job[2])
+        else:
+            {"pm": C15pm.job_pm, "pmdom": C15pm.job_pmdom, "pmls": C15pm.job_pmls}[job[0]](ss, job[2], job[1])
+        return ss.records
     {
         "bw": job_bw, "cmmom": job_cmmom, "poly": job_poly, "bprime": job_bprime, "gamma": job_gamma, "bwr": job_bwr,
         "bwr2": job_bwr2, "dom": job_dom, "barrier": job_barrier, "gs": job_gs,
